@@ -272,26 +272,12 @@ Proof.
   split; trivial. split; trivial. exists order. split; trivial.
   intros l wl ob Hin Hob.
   pose proof (verdict_of_zero _ H) as Hz. clear H.
-  assert (Hp : forall c, In c (match obs_get obs l with
-                               | None => []
-                               | Some ob => if negb (Nat.eqb (length ob) (length (all_assts (lshape G l))) && Nat.eqb (length wl) (length (all_assts (lshape G l)))) then [4%nat]
-                                            else map (fun c : list nat * option Q * (Q * Q) =>
-                                                        let '(i0, wv, ob1) := c in
-                                                        entry_verdict (entry_interval G ws is_log rounds (nonrecursive_order G order) cot l i0 wv) ob1
-                                                          (match (if nonrecursive_order G order && negb is_log
-                                                                  then Some (backward_nonrec ereal_ops G (weights_tmt ereal_of G ws) order (map pos_part cot),
-                                                                             backward_nonrec ereal_ops G (weights_tmt ereal_of G ws) order (map neg_part cot))
-                                                                  else None) with
-                                                           | None => None
-                                                           | Some (bpos, bneg) =>
-                                                             Some (match fin_q (env_of ereal_ops bpos l i0), fin_q (env_of ereal_ops bneg l i0) with
-                                                                   | Some a, Some b => Some (a - b)
-                                                                   | _, _ => None
-                                                                   end)
-                                                           end))
-                                                     (combine (combine (all_assts (lshape G l)) wl) ob)
-                               end) -> c = 0%nat).
-  { intros c Hcin. apply Hz. apply in_flat_map. exists (l, wl). split; trivial. }
+  match type of Hz with
+  | (forall c, In c (flat_map ?f _) -> _) =>
+    assert (Hp : forall c, In c (f (l, wl)) -> c = 0%nat)
+      by (intros c Hcin; apply Hz; apply in_flat_map; exists (l, wl); split; trivial)
+  end.
+  cbn beta iota zeta in Hp. cbn [fst snd] in Hp.
   rewrite Hob in Hp.
   destruct (Nat.eqb (length ob) (length (all_assts (lshape G l))) && Nat.eqb (length wl) (length (all_assts (lshape G l)))) eqn:El; cbn [negb] in Hp.
   2:{ specialize (Hp 4%nat (or_introl eq_refl)). discriminate. }
